@@ -23,6 +23,7 @@ var LibModels = []string{
 	"unicode.IsSpace: exact for code points < 256, uninterpreted above",
 	"utf8.RuneStart(b): exact (b is not in 0x80..0xBF)",
 	"strings.ReplaceAll(s, c, w) for a one-byte literal c: byte-for-byte map when w is one byte; otherwise every c in the result ends a copy of w (when c occurs in w only as its last byte), no c at all when c does not occur in w, other bytes are not invented",
+	"strings.TrimSpace(root[lo:]): if root is valid UTF-8 and lo is a character boundary of root, the result starts and ends on character boundaries of root",
 	"strings.TrimSpace: result is a sub-slice of the argument (same backing array, offsets within bounds); trimmed prefix/suffix bytes satisfy isTrimByte (uninterpreted superset of ASCII space); result does not start/end with an ASCII space byte; whole characters are trimmed (for valid UTF-8 input the result starts and ends on character boundaries)",
 	"strings.ToUpper/ToLower: length-preserving for ASCII input; ASCII letters mapped exactly, other ASCII bytes unchanged (non-ASCII: uninterpreted)",
 	"sort.Ints: same length, ascending, same set of values, distinctness preserved (consequences of 'sorted permutation'); sort.Strings/Float64s/Slice/SliceStable: same length, a permutation (every sum-shaped fold over the whole slice is preserved), otherwise unconstrained",
@@ -200,6 +201,19 @@ func (x *Exec) libCall(key string, fn *types.Func, call *ast.CallExpr, recvExpr 
 			app := "(" + name + " " + s.S + " " + qs + ")"
 			x.W.AddFact(env.pc, T(fmt.Sprintf("(forall ((%s %s)) (! (=> %s (and (= %s 0) (= %s 0))) :pattern (%s)))", qs, stSort, app,
 				x.W.SeqAt(stv, a).S, x.W.SeqAt(stv, Arith("+", a, n)).S, app), SBool))
+			// the argument is a suffix root[lo:] of a string: a suffix of valid UTF-8 that starts on a character boundary
+			// is valid UTF-8 and its boundaries are boundaries of the root (the automaton states are the same, shifted)
+			if se, ok := ast.Unparen(call.Args[0]).(*ast.SliceExpr); ok && se.High == nil && se.Low != nil && !se.Slice3 {
+				x.quiet++
+				root := x.eval(se.X, env)
+				lo := x.eval(se.Low, env)
+				x.quiet--
+				if x.W.IsSeq(root.Sort) && root.Sort == s.Sort {
+					appR := "(" + name + " " + root.S + " " + qs + ")"
+					x.W.AddFact(env.pc, T(fmt.Sprintf("(forall ((%s %s)) (! (=> (and %s (= %s 0)) (and (= %s 0) (= %s 0))) :pattern (%s)))", qs, stSort, appR,
+						x.W.SeqAt(stv, lo).S, x.W.SeqAt(stv, Arith("+", lo, a)).S, x.W.SeqAt(stv, Arith("+", lo, Arith("+", a, n))).S, appR), SBool))
+				}
+			}
 		}
 		return []Term{r}, true
 	case "strings.ReplaceAll":
